@@ -390,7 +390,9 @@ func (sr *seqRunner) runPath(trNo int, ops []GenOp) error {
 				}
 			}
 			if top != 0 {
-				evs, err := dumpFeed(env.colls2[c], top, false)
+				// (this feed keeps a checkpoint, one per path: from the second step on a checkpoint of an earlier run exists,
+				// at or above the start whenever the step changed nothing)
+				evs, err := dumpFeedCkpt(env.colls2[c], top, false, "~cp"+strings.Replace(suffix, ".", "_", 1))
 				if err != nil {
 					return fmt.Errorf("trace %d step %d dump2: %w", trNo, i+1, err)
 				}
